@@ -135,8 +135,8 @@ extern MPT_STRUCT(command) *mpt_command_reserve(MPT_STRUCT(array) *arr, size_t m
 	/* save used size */
 	msg->_used = used * sizeof(*cmd);
 	
-	/* try to find low free id */
-	if (++mid > max) {
+	/* try to find low free id (next id must not wrap around) */
+	if (mid >= max) {
 		for (i = 1; i <= max; ++i) {
 			if (!mpt_command_find(base, used, i)) {
 				mid = i;
@@ -147,6 +147,9 @@ extern MPT_STRUCT(command) *mpt_command_reserve(MPT_STRUCT(array) *arr, size_t m
 		if (i > max) {
 			return 0;
 		}
+	}
+	else {
+		++mid;
 	}
 	/* add command slot */
 	if (!(cmd = mpt_array_append(arr, sizeof(*cmd), 0))) {
